@@ -51,6 +51,8 @@ def check(ctx):
     n = 0
     for cls in classes:
         cat = catalogue(a, cls)
+        from .flows import rule_hook_after_session
+        rule_hook_after_session(ctx, cat, "Y-HOOK", "what the hook requests on the new connection is resumed or purged as if an earlier connection had left it behind")
         cq = cls_short(cls.qual)
         lc = lifecycle(a, cls)
         from ..lifecycle import rule_session_field
